@@ -498,3 +498,19 @@ package adt
 //@   arith bv
 //@   ensures result == (FeatureType(f & fTypeMask) == HiddenLabel || FeatureType(f & fTypeMask) == HiddenDefinitionLabel || FeatureType(f & fTypeMask) == DefinitionLabel || FeatureType(f & fTypeMask) == LetLabel)
 //@ lemma label_classes_partition: forall t FeatureType :: validLabelType(t) ==> ((t == IntLabel || t == StringLabel) != (t == DefinitionLabel || t == HiddenDefinitionLabel || t == HiddenLabel || t == LetLabel))
+
+// ---- C05: closedness evidence (the ∀ structure only) ----
+//@ spec func evidenceFor(n *nodeContext, all reqSets, i int, conjuncts []conjunctInfo) bool
+//@ func (*nodeContext).hasEvidenceForOne
+//@   assumed A-int: the evidence computation itself (containsDefID, embed scopes, replace ids) has no smaller specification than the property; only its use is verified
+//@   ensures result == evidenceFor(n, all, i, conjuncts)
+//@ func (*nodeContext).Logf
+//@   assumed A-int: debug logging
+
+// a field is allowed only if every typo-checked struct that is neither ignored
+// nor removed has evidence for it
+//@ func (*nodeContext).hasEvidenceForAll
+//@   requires n != nil && n.ctx != nil && len(a) <= 0xffffffff
+//@   loop 0 invariant -1 <= rangeindex && rangeindex < len(a)
+//@   loop 0 invariant forall i int :: 0 <= i && i <= rangeindex ==> a[i].ignored || a[i].removed || evidenceFor(n, a, i, conjuncts)
+//@   ensures result == (forall i int :: 0 <= i && i < len(a) ==> a[i].ignored || a[i].removed || evidenceFor(n, a, i, conjuncts))
